@@ -74,7 +74,7 @@ def step (st : St) (n : Nat) (ln : Line) : St × List String :=
         ++ (if r.start ≠ [] ∧ ltB r.start (effPrefix r) then ["COV list.start-before-prefix"] else [])
         ++ (if !st.kind.native ∧ effPrefix r ≠ [] ∧ names.length > 0 then ["COV list.generic-prefix"] else [])
       ({ st with dbs := setDb st.dbs dbn db', dir := st.dir.filter (fun p => !gone p),
-                 acc := st.acc ++ inames, accBad := st.accBad || !iok },
+                 acc := st.acc ++ inames, accBad := st.accBad || !iok || !j.isEmpty },
        diff n ln model ++ j ++ cov)
   | "pagebegin" => ({ st with acc := [], accBad := false }, [])
   | "pageend" =>
